@@ -166,7 +166,7 @@ let call_str (c : call) : string =
 
 let exec_cmd (toks : string list) : string option =
   match toks with
-  | "exec" :: d :: per :: h :: b :: mode :: stop :: nf :: rest ->
+  | ("exec" | "execrb") :: d :: per :: h :: b :: mode :: stop :: nf :: rest ->
       let nf = int_of_string nf in
       let flags = take nf rest in
       let rest = drop nf rest in
